@@ -104,6 +104,8 @@ type Conn struct {
 	ReadsAfterEnd int
 
 	Log []Op
+	// NoLog switches the operation log off (allocation-sensitive monitors).
+	NoLog bool
 	out []byte // all bytes accepted by Write
 
 	// Counted decides which op kinds take part in fault indexing (nil = all).
@@ -187,6 +189,9 @@ func (c *Conn) CountedOps() int {
 }
 
 func (c *Conn) log(op Op) {
+	if c.NoLog {
+		return
+	}
 	op.Idx = len(c.Log)
 	c.Log = append(c.Log, op)
 }
@@ -238,7 +243,9 @@ func (c *Conn) Read(p []byte) (int, error) {
 		c.si++
 		c.off = 0
 	}
-	c.log(Op{Kind: OpRead, Want: len(p), Data: append([]byte(nil), p[:n]...), Err: err})
+	if !c.NoLog {
+		c.log(Op{Kind: OpRead, Want: len(p), Data: append([]byte(nil), p[:n]...), Err: err})
+	}
 	return n, err
 }
 
